@@ -4,7 +4,7 @@
                                                    load (with its control name and arity) and the file written by
                                                    the last save
      (1 mk_args sub k)  -> result (space sfile)   the same for ExperimentSpace.from_screen(screen)
-     (2 mk_args sub)    -> file                   save only (what save_h5 writes), for screens that cannot be loaded *)
+     (2 mk_args sub)    -> file                   save only (what save_h5 writes) *)
 From Coq Require Import ZArith List.
 From Batchie Require Import Lib.Sexp Lib.Num Model.Encode Model.Screen Model.ScreenIO Model.Persist.
 Import ListNotations.
@@ -12,13 +12,13 @@ Open Scope Z_scope.
 
 Definition of_names : list name -> sexp := of_list of_name.
 
-(* (tnames tdoses tids tm_names tm_doses tm_ids obs mask sids snames sm_names sm_ids pids pnames ctrl) *)
+(* (tnames tdoses tids tm_names tm_doses tm_ids obs mask sids snames sm_names sm_ids pids pnames ctrl arity) *)
 Definition of_file (f : file) : sexp :=
   SL [of_list of_names (f_tnames f); of_list of_Zs (f_tdoses f); of_list of_Zs (f_tids f);
       of_names (f_tm_names f); of_Zs (f_tm_doses f); of_Zs (f_tm_ids f);
       of_Zs (f_obs f); of_list of_bool (f_mask f);
       of_Zs (f_sids f); of_names (f_snames f); of_names (f_sm_names f); of_Zs (f_sm_ids f);
-      of_Zs (f_pids f); of_names (f_pnames f); of_name (f_ctrl f)].
+      of_Zs (f_pids f); of_names (f_pnames f); of_name (f_ctrl f); of_nat (f_arity f)].
 
 (* (tmap smap ctrl) *)
 Definition of_space (sp : space) : sexp :=
